@@ -172,18 +172,18 @@ Proof.
   apply list_eqb_eq in H0; [|apply table_eqb_eq]. subst. auto.
 Qed.
 
-Definition hmix (h v : N) : N := N.land (h * 1000003 + v + 1) 1099511627775.
+(* a cheap additive hash (collisions only cost time: membership compares the states themselves) *)
 Definition centry_code (c : centry) : N :=
   match c with CPending g => 10 + g | CComputed => 1 | CConst => 2 | CAlloc T => 3 + tcode T end.
 Definition ival_code (v : ival) : N :=
   match v with IRow VKImm => 1 | IRow VKAlloc => 2 | IRow VKShared => 3 | IUser => 4 end.
 Definition hash_g (x : gstate) (h : N) : N :=
-  let h1 := fold_left (fun h p => hmix (hmix h (fst p)) (centry_code (snd p))) (cm x) h in
-  let h2 := fold_left (fun h p => hmix (hmix h (fst p)) (ival_code (snd p))) (im x) (hmix h1 7) in
-  let h3 := fold_left hmix (pr x) (hmix h2 11) in
-  fold_left hmix (mk x) (hmix h3 13).
+  let h1 := fold_left (fun h p => h + fst p * 16 + centry_code (snd p)) (cm x) h in
+  let h2 := fold_left (fun h p => h + fst p * 8 + ival_code (snd p)) (im x) h1 in
+  let h3 := fold_left (fun h k => h + k * 3) (pr x) h2 in
+  fold_left (fun h k => h + k * 5) (mk x) h3.
 Definition hash_p (t : pstate) : positive :=
-  N.succ_pos (hash_g (p_g t) (hash_g (p_base t) (fold_left (fun h T => hmix h (tcode T)) (p_tabs t) 5))).
+  N.succ_pos (hash_g (p_g t) (hash_g (p_base t) (fold_left (fun h T => h + 1 + tcode T) (p_tabs t) 0))).
 
 Inductive pact := PNew (T : table) | PLop (o : lop).
 
